@@ -56,8 +56,10 @@ class UDPListener:
 
         available = MAX_MESSAGE_LEN - len(self._getMessage(2**16-1))
         if available < 0:
-            desc_length = len(self.description.encode('utf-8'))
-            if available + desc_length < 0:
+            # does the message fit without description?
+            # (the description might be longer in json than in utf-8)
+            description, self.description = self.description, ''
+            if len(self._getMessage(2**16-1)) > MAX_MESSAGE_LEN:
                 self.log.warn('Equipment id and firmware name exceed 430 byte '
                               'limit, not answering to udp discovery')
                 self.is_enabled = False
@@ -66,9 +68,9 @@ class UDPListener:
                 # with errors='ignore', cutting insite a utf-8 glyph will not
                 # report an error but remove the rest of the glyph from the
                 # output.
-                self.description = self.description \
-                                       .encode('utf-8')[:available] \
-                                       .decode('utf-8', errors='ignore')
+                self.description = description \
+                    .encode('utf-8')[:available] \
+                    .decode('utf-8', errors='ignore')
 
     def _getMessage(self, port):
         return json.dumps({
